@@ -169,8 +169,6 @@ impl<R: RefCounter, PR: PathRefCounter, H: Header> Memory<R, PR, H> {
       MemoryBackend::MmapMut {
         buf, file, opts, ..
       } => unsafe {
-        let _ = Box::from_raw(*buf);
-
         let current_file_size = file.metadata()?.len();
         if current_file_size < opts.offset + size as u64 {
           file.set_len(opts.offset + size as u64)?;
@@ -178,7 +176,9 @@ impl<R: RefCounter, PR: PathRefCounter, H: Header> Memory<R, PR, H> {
 
         let mut mmap = mmap_mut(opts.with_capacity(size as u32).to_mmap_options(), file)?;
         let ptr = mmap.as_mut_ptr();
-        *buf = Box::into_raw(Box::new(mmap));
+        // release the old map only when the new one exists, an error above must leave the ARENA usable.
+        let old = mem::replace(buf, Box::into_raw(Box::new(mmap)));
+        let _ = Box::from_raw(old);
         self.ptr = ptr;
       },
       MemoryBackend::Mmap { .. } => return Ok(()),
